@@ -383,25 +383,15 @@ def incParts (f : MpFmt) : List (List Resp) → List MItem
 def mpExpected (f : MpFmt) (p0 : Resp) (batches : List (List Resp)) : List MItem :=
   partItem p0.body :: (incParts f batches ++ [.close])
 
-/-- consume the items against the payloads still to be delivered: each incremental part must be
-    the wrapper of the next k ≥ 1 payloads -/
-def matchBatch (f : MpFmt) (rest : List Resp) (body : Bytes) : Nat → Option (List Resp)
-  | 0 => none
-  | k + 1 =>
-    match matchBatch f rest body k with
-    | some r => some r
-    | none =>
-      if k + 1 ≤ rest.length ∧ incJson f (rest.take (k + 1)) (!(rest.drop (k + 1)).isEmpty) = body
-      then some (rest.drop (k + 1)) else none
-
+/-- the items after the initial part against the payloads still to be delivered: each incremental
+    part must be the wrapper of the next k ≥ 1 payloads (for some k), saying `hasNext` exactly when
+    payloads remain after it; the closing delimiter comes when none remain -/
 def mpSpecParts (f : MpFmt) : List Resp → List MItem → Bool
   | rest, [] => rest.isEmpty
   | rest, [.close] => rest.isEmpty
   | rest, .part hs body :: is =>
-    hs == [ctLine] &&
-    match matchBatch f rest body rest.length with
-    | some r => mpSpecParts f r is
-    | none => false
+    hs == [ctLine] && (List.range rest.length).any fun k =>
+      incJson f (rest.take (k + 1)) (!(rest.drop (k + 1)).isEmpty) == body && mpSpecParts f (rest.drop (k + 1)) is
   | _, _ => false
 
 /-- complete stream: initial payload first, then wrappers delivering every other payload exactly
@@ -427,13 +417,11 @@ where
     | _, [] => true
     | rest, [.close] => rest.isEmpty
     | rest, .part hs body :: is =>
-      hs == [ctLine] &&
-      (match matchBatch f rest body rest.length with
-       | some r => prefixParts f r is
-       | none =>
-         -- the last batch before the client left may carry hasNext=true although nothing follows in `rest`
-         is.isEmpty && (List.range (rest.length + 1)).any fun k =>
-           k ≥ 1 && incJson f (rest.take k) true == body)
+      hs == [ctLine] && (List.range rest.length).any fun k =>
+        -- the last batch before the client left may say hasNext=true although nothing follows in `rest`
+        (incJson f (rest.take (k + 1)) (!(rest.drop (k + 1)).isEmpty) == body ||
+          (is.isEmpty && incJson f (rest.take (k + 1)) true == body)) &&
+        prefixParts f (rest.drop (k + 1)) is
     | _, _ => false
 
 /-- hasNext is true on every payload but the last, false on the last -/
